@@ -72,9 +72,11 @@ manifest = {
     'notes': 'Exit codes of every command: 0 holds (KNOWN-FINDING lines allowed), 1 VIOLATION, 2 ANALYSIS-ERROR (anchor vanished / '
     'idiom not recognised: the analysis refuses to vouch, never a silent pass). Known findings: /verif/known_findings.json. '
     'A VIOLATION is printed only for an obligation whose rule identified something that contradicts the property; a function rewritten in a shape '
-    'the rule does not know is answered by exit 2 (not recognised), never by a VIOLATION (DESIGN.md 7.9). '
-    'Thorough tier = quick tier + in-memory variant matrix (own mutants, the 80 seeded changes of /verif/seeded, 17 whole-package behaviour-preserving variants); '
-    'tools/score.py replays the 80 refactorings of /verif/refactorings and the 80 seeded changes.',
+    'the rule does not know is answered by exit 2 (not recognised), never by a VIOLATION: a failed obligation is a VIOLATION only where the rule '
+    'names the contradiction (DESIGN.md 7.12, 7.14). '
+    'Thorough tier = quick tier + in-memory variant matrix: the property\'s own mutants, the confirmed breaking changes of /verif/seeded for that property, '
+    'every committed behaviour-preserving rewrite of /verif/refactorings that touches a file of the property, and 20 whole-package behaviour-preserving '
+    'variants; it takes 2-10 minutes on 16 cores. tools/score.py replays all 682 refactorings and all 160 seeded changes against all twenty properties (19 minutes).',
 }
 with open(os.path.join(HERE, 'MANIFEST.json'), 'w') as f:
     json.dump(manifest, f, indent=1)
